@@ -1677,6 +1677,7 @@ def count_true(E, a, st):
         sm = fresh("sum", I)
         st.assume(z3.Implies(z3.ForAll(idx, z3.Implies(rng, z3.Or(to_int(a.sel(*idx)) == 0, to_int(a.sel(*idx)) == 1))), sm == c))
         return sm
+    _used(E, "np.sum of a general numeric array (unconstrained value)")
     return fresh("sum", R)      # sum of a general numeric array: no contract (unconstrained value)
 
 
